@@ -78,7 +78,7 @@ CLAIMS = {
          "trusted base: vlib/ref_scheme.py (written from R7RS); integers kept below 2^20 so arithmetic defects cannot interfere"),
  "C02": ("exploration",
          "runtime monitoring: native probe samples real machine stack depth and live heap at every loop iteration; flatness invariant + closed-form result",
-         "loops whose recursive call sits in compositions of the 16 tail contexts x 8 loop shapes x direct/apply x N are run on the real interpreter; a native probe called once per iteration records the machine stack depth and a counting allocator's live bytes; after warm-up both must be flat and the result must equal the closed form. Two genuine defects (tail apply, Rc cycle per internal procedure) are listed as known findings.",
+         "loops whose recursive call sits in compositions of the 16 tail contexts x 8 loop shapes x direct/apply x N are run on the real interpreter; a native probe called once per iteration records the machine stack depth and a counting allocator's live bytes; after warm-up both must be flat and the result must equal the closed form. One genuine defect (an Rc cycle per internally defined procedure leaks heap per iteration) is a listed known finding.",
          "flatness thresholds 1 KiB stack / 1 byte per iteration heap (three orders of magnitude of margin); 'any N' sampled at the stated N"),
  "C03": ("exploration",
          "runtime monitoring: history + executable store model, unique written values, probe reads after every write, alias partition from Rc pointer identity",
